@@ -64,7 +64,7 @@ struct Fmt {
     char subj_tc[64], subj_fi[64], subj_ts[64];
     Pool& pool;
     Counts& cnt;
-    std::size_t i_tc[6], i_fit[6], i_fin[6], i_ts[3];
+    std::size_t i_tc[6], i_tcd[6], i_fit[6], i_fin[6], i_ts[3];
     char const* tname;
 
     Fmt(char const* name, Pool& p, Counts& c) : pool(p), cnt(c), tname(name)
@@ -74,6 +74,7 @@ struct Fmt {
         std::snprintf(subj_ts, sizeof subj_ts, "to_string<%s>", name);
         for (unsigned i = 0; i < 6; ++i) {
             i_tc[i]  = c.slot(std::string(subj_tc) + "|" + kBuf[i]);
+            i_tcd[i] = c.slot(std::string(subj_tc) + "|default-base|" + kBuf[i]);
             i_fit[i] = c.slot(std::string(subj_fi) + "|term|" + kBuf[i]);
             i_fin[i] = c.slot(std::string(subj_fi) + "|noterm|" + kBuf[i]);
         }
@@ -113,6 +114,33 @@ struct Fmt {
             }
             std::string const obs(b.data(), (std::size_t)(er.ptr - b.data())), exp(ref, (std::size_t)(sr.ptr - ref));
             if (obs != exp) { digits_diverge(obs, exp); } // equal strings imply equal ptr offsets
+        } else if (er.ptr != b.data() + L) {
+            vf::diverge("ptr:not-last", vf::to_s(er.ptr - b.data()), vf::to_s((long long)L));
+        }
+    }
+
+    // ---- the overload with the defaulted base: etl::to_chars(first, last, v)
+    void to_chars_default_base(T v, std::size_t L, std::string const& digits)
+    {
+        std::size_t const d = digits.size();
+        unsigned const bi   = buf_idx(L, d);
+        char sit[64];
+        std::snprintf(sit, sizeof sit, "base10,%s,%s", sign_cls((i128)v), kBuf[bi]);
+        vf::Buf<char>& b = pool.get(L);
+        if (L) { std::memset(b.data(), 0xCD, L); }
+        crumb(subj_tc, "to_chars(first,last,value)", sit, v, 10, L);
+        auto const er = etl::to_chars(b.data(), b.data() + L, v);
+        cnt.bump(i_tcd[bi]);
+        check_and_repair(b, "to_chars output buffer");
+        Ec const exp = d <= L ? Ec::ok : Ec::value_too_large;
+        if (!eq_ec("ec", ec_of_etl(er.ec), exp)) { return; }
+        if (exp == Ec::ok) {
+            if (er.ptr < b.data() || er.ptr > b.data() + L) {
+                vf::diverge("ptr:outside-buffer", vf::to_s(er.ptr - b.data()), vf::to_s((long long)d));
+                return;
+            }
+            std::string const obs(b.data(), (std::size_t)(er.ptr - b.data()));
+            if (obs != digits) { digits_diverge(obs, digits); }
         } else if (er.ptr != b.data() + L) {
             vf::diverge("ptr:not-last", vf::to_s(er.ptr - b.data()), vf::to_s((long long)L));
         }
@@ -202,6 +230,9 @@ struct Fmt {
         std::string const digits(ref, full.ptr);
         std::size_t const d = digits.size();
         for (std::size_t L = 0; L <= d + 2; ++L) { to_chars_one(v, base, L, d); }
+        if (base == 10) {
+            for (std::size_t L = 0; L <= d + 2; ++L) { to_chars_default_base(v, L, digits); }
+        }
         for (std::size_t L = 0; L <= d + 2; ++L) { from_integer_one<false>(v, base, L, digits); }
         for (std::size_t L = 0; L <= d + 3; ++L) { from_integer_one<true>(v, base, L, digits); }
         if (base == 10) { to_string_all(v); }
